@@ -846,10 +846,23 @@ impl<const M: usize> Exec<M> {
             return;
         }
         self.applied = true;
+        let mut refused_seen = false;
         for e in evs {
             match *e {
                 Ev::Malloc { size, align, addr } => {
+                    if addr == 0 {
+                        refused_seen = true;
+                    }
                     if addr != 0 {
+                        // C18: with no limit and no refusal, a new chunk is at least twice the previous one
+                        if lim_before.is_none() && !refused_seen && !matches!(op, Op::New { .. }) {
+                            if let Some((_, ps, _)) = self.held.last() {
+                                let ov = self.footer_overhead.unwrap_or(48);
+                                if size.saturating_sub(ov) < 2 * ps.saturating_sub(ov) {
+                                    self.fail("C18", "chunk-growth-not-geometric", format!("previous chunk {} bytes, new chunk {} bytes", ps, size));
+                                }
+                            }
+                        }
                         if let Some(l) = lim_before {
                             let ov = self.footer_overhead.unwrap_or(48);
                             let before: usize = self.held.iter().map(|(_, s, _)| s.saturating_sub(ov)).sum();
